@@ -18,6 +18,8 @@ pub enum SrcKind {
   Cold { scripts: Vec<Vec<Ev>>, polite: bool },
   /// hot: stores the observer, the driver pushes events
   Hot,
+  /// the crate's own `Subject` used as a (well-behaved) hot source
+  Subject,
   /// endless polite producer of the given value (observables::repeat)
   Endless(i64),
 }
@@ -170,7 +172,7 @@ impl RefWorld {
     let kind = self.srcs[i].kind.clone();
     let node = self.srcs[i].insts[inst].node;
     match kind {
-      SrcKind::Hot => {}
+      SrcKind::Hot | SrcKind::Subject => {}
       SrcKind::Endless(v) => {
         let mut n = 0;
         while self.srcs[i].insts[inst].alive && n < ENDLESS_CAP {
